@@ -1,1 +1,5 @@
 //! Verification hooks for the `bitswap` domain (`--cfg litep2p_verif` only).
+
+pub use crate::protocol::libp2p::bitswap::{
+    verif::*, BitswapEvent, BitswapHandle, BlockPresenceType, ResponseType, WantType,
+};
